@@ -247,6 +247,13 @@ var c16Stmts = []string{
 	"t + 1",
 	"if t == 5 {\n  write(\"yes\")\n} else {\n  write(\"no\")\n}",
 	"u",
+	"if t == 5 1 else 2",
+	"if t == 6 1 else 2",
+	"if t == 5 t + 1",
+	"while t < 7 t = t + 1",
+	"t",
+	"for i <- fromto(0, 2) i",
+	"[t, t + 1][1]",
 }
 
 var reportLine = regexp.MustCompile(`^(    \d|--> \d|memory context |= stack =|IP: |=====|corrupt |No debug info)`)
@@ -358,7 +365,7 @@ func init() {
 		ID:    "C16",
 		Level: "model_checking",
 		Rule: "(a) explicit-state search over all sequences of length <= 5 (quick) / 6 (thorough) of 19 script lines (one-line statements, block openers / closers / else, an array literal and a string split over lines, strings containing { [ } ; an escaped quote and a backslash, comments containing { \" [, blank lines) fed to the real read-eval loop through the real file reader (with and without final newline) and through an in-memory line reader (REPL style) with a recording parser: the inputs handed to the parser must be, token for token, the statements a lexer-aware splitter finds; " +
-			"(b) every script of <= 3 (quick) / 4 (thorough) statements from a 24-statement alphabet (expressions of every value kind, function definitions and calls, multi-line blocks, loops, strings with every special character, a multi-line string, comments, a multi-line array literal, a runtime error, dependent statements) through the built cmd/calc binary in -eval, piped-REPL and file mode (with and without final newline): each mode's output must be what in-process statement-by-statement execution predicts. states = distinct (nesting depth, open string, pending text) accumulator states of the model; transitions = lines fed",
+			"(b) every script of <= 3 (quick) / 4 (thorough) statements from a 31-statement alphabet (expressions of every value kind, function definitions and calls, multi-line blocks, loops, strings with every special character, a multi-line string, comments, a multi-line array literal, a runtime error, dependent statements) through the built cmd/calc binary in -eval, piped-REPL and file mode (with and without final newline): each mode's output must be what in-process statement-by-statement execution predicts. states = distinct (nesting depth, open string, pending text) accumulator states of the model; transitions = lines fed",
 		Assumptions:     []string{"ill-formed line sequences (a closer without opener, an unfinished block at end of file) are skipped and counted", "runtime error reports are compared on their first line only (addresses and instruction numbers differ between modes)"},
 		NeedsCalcBinary: true,
 		Exec: func(payload string) (string, string) {
